@@ -439,7 +439,7 @@ def g_ok(ex, st, garg):
         # concrete productions: 1 + max over field types (1 without fields); field types registered
         isconc = lambda gg, t: z3.And(leaf(t), z3.Not(has(gg, t)), member(nodes(gg), t), t != tint, t != tfloat, t != tbool)
         ax.append(z3.ForAll([g, c, k], z3.Implies(z3.And(ok(g), isconc(g, c), 0 <= k, k < L0[args(c)]),
-                                                  z3.And(d(g, fty(c, k)), f(g, c) >= 1 + f(g, fty(c, k)))),
+                                                  z3.And(d(g, fty(c, k)), z3.Implies(f(g, c) < 1000000, f(g, c) >= 1 + f(g, fty(c, k))))),
                             patterns=[z3.MultiPattern(ok(g), EP0[args(c)][k])]))
         ax.append(z3.ForAll([g, c], z3.Implies(z3.And(ok(g), isconc(g, c)), z3.And(f(g, c) >= 1, args(c) >= 1, args(c) < ex.top0, L0[args(c)] >= 0)), patterns=[z3.MultiPattern(ok(g), args(c))]))
     return V(BOOL, ok(garg.term))
